@@ -1,4 +1,355 @@
 import OtelVerif.Model.C17
-/-! C17 property theorems (stub) -/
+import OtelVerif.Lemmas.C17Split
+import OtelVerif.Lemmas.C17Shard
+/-!
+# C17 — batch processor: conservation, size bound, metadata isolation, timely flush
+
+Property theorems only.  The model (`Model/C17.lean`) is of the repaired split functions
+(`fix:` 9729ad006 in /tmp/wt-C17) and of `batch_processor.go` as pinned.
+-/
 namespace OtelVerif.C17
+open OtelVerif.Payload
+
+/-! ## split functions -/
+
+/-- `splitLogs` / `splitTraces`: every record, with its full context (resource, resource schema URL, scope, scope
+schema URL), is either in the returned batch or still in the source — for every payload and every size. -/
+theorem C17_split_conserve (size : Nat) (src : List Res) (h : size < count src) :
+    (flatten (splitLogs size src).1 ++ flatten (splitLogs size src).2).Perm (flatten src) := by
+  have : ¬ count src ≤ size := by omega
+  simp only [splitLogs, this, if_false]
+  exact splitRes_perm size 0 src
+
+/-- the returned batch has exactly `size` records -/
+theorem C17_split_size (size : Nat) (src : List Res) (h : size < count src) :
+    count (splitLogs size src).1 = size := by
+  have hn : ¬ count src ≤ size := by omega
+  simp only [splitLogs, hn, if_false]
+  have := splitRes_fill size 0 src (Nat.zero_le _)
+  rw [this.2, this.1]; omega
+
+/-- when the payload is not larger than `size` it is returned whole (the same object) -/
+theorem C17_split_whole (size : Nat) (src : List Res) (h : count src ≤ size) : (splitLogs size src).1 = src := by
+  simp [splitLogs, h]
+
+/-- `splitMetrics`: every data point keeps resource, scope, both schema URLs and the metric's name, unit,
+description, type, temporality, monotonicity and metadata -/
+theorem C17_split_conserve_metrics (size : Nat) (src : List MRes) (h : size < mcount src) :
+    (mflatten (splitMetrics size src).1 ++ mflatten (splitMetrics size src).2).Perm (mflatten src) := by
+  have : ¬ mcount src ≤ size := by omega
+  simp only [splitMetrics, this, if_false]
+  exact splitMRes_perm size 0 src
+
+theorem C17_split_size_metrics (size : Nat) (src : List MRes) (h : size < mcount src) :
+    mcount (splitMetrics size src).1 = size := by
+  have hn : ¬ mcount src ≤ size := by omega
+  simp only [splitMetrics, hn, if_false]
+  have := splitMRes_fill size 0 src (Nat.zero_le _)
+  rw [this.2, this.1]; omega
+
+/-- non-vacuity: a cut inside one scope (the design-time witness): both sides keep both schema URLs -/
+example :
+    let src : List Res := [⟨⟨1, 2, 0⟩, [⟨⟨3, 0, 0, 4, 0⟩, [⟨10, 0, 1⟩, ⟨11, 0, 1⟩, ⟨12, 0, 1⟩]⟩]⟩]
+    2 < count src ∧ splitLogs 2 src =
+      ([⟨⟨1, 2, 0⟩, [⟨⟨3, 0, 0, 4, 0⟩, [⟨10, 0, 1⟩, ⟨11, 0, 1⟩]⟩]⟩], [⟨⟨1, 2, 0⟩, [⟨⟨3, 0, 0, 4, 0⟩, [⟨12, 0, 1⟩]⟩]⟩]) := by decide
+
+
+/-! ## shard loop (`startLoop` / `processItem` / `sendItems`), all label sequences -/
+
+theorem logs_laws : BatchLaws logsBatch flatten :=
+  ⟨count_eq_length, rfl, fun a b => by simp [logsBatch, flatten], C17_split_conserve, C17_split_size⟩
+
+theorem metrics_laws : BatchLaws metricsBatch mflatten :=
+  ⟨mcount_eq_length, rfl, fun a b => by simp [metricsBatch, mflatten], C17_split_conserve_metrics, C17_split_size_metrics⟩
+
+/-- configuration accepted by `Config.Validate` -/
+def Cfg.valid (c : Cfg) : Prop := c.max = 0 ∨ c.sbs ≤ c.max
+
+/-- what the loop does between two `select`s -/
+inductive Label (P : Type) where
+  | arrive (now : Nat) (p : P)
+  | tick
+
+def Shard.step {P : Type} (o : BatchOps P) (c : Cfg) (s : Shard P) : Label P → Shard P × List (Emit P)
+  | .arrive now p => s.process o c now p
+  | .tick => s.tick o c
+
+def Shard.run {P : Type} (o : BatchOps P) (c : Cfg) : Shard P → List (Label P) → Shard P × List (Emit P)
+  | s, [] => (s, [])
+  | s, l :: ls =>
+    let r := s.step o c l
+    let r' := Shard.run o c r.1 ls
+    (r'.1, r.2 ++ r'.2)
+
+def arrivedFlat {P β : Type} (flat : P → List β) : List (Label P) → List β
+  | [] => []
+  | .arrive _ p :: ls => flat p ++ arrivedFlat flat ls
+  | .tick :: ls => arrivedFlat flat ls
+
+/-- invariant between two labels: the counter is exact and no send is due -/
+def Shard.inv {P : Type} (o : BatchOps P) (c : Cfg) (s : Shard P) : Prop := s.ok o ∧ due c s = false
+
+theorem process_spec {P β : Type} (o : BatchOps P) (flat : P → List β) (hl : BatchLaws o flat) (c : Cfg) (now : Nat)
+    (s : Shard P) (p : P) (hs : s.ok o) :
+    (s.process o c now p).1.inv o c ∧
+    (flatEmits flat (s.process o c now p).2 ++ flat (s.process o c now p).1.data).Perm (flat s.data ++ flat p) ∧
+    (c.max > 0 → ∀ e ∈ (s.process o c now p).2, o.count e.p ≤ c.max) ∧
+    (s.process o c now p).1.key = s.key ∧ (∀ e ∈ (s.process o c now p).2, e.key = s.key ∧ e.t = now) := by
+  have hadd : (s.add o p).ok o ∧ flat (s.add o p).data = flat s.data ++ flat p ∧ (s.add o p).key = s.key := by
+    simp only [Shard.add]
+    by_cases h : (o.count p == 0) = true
+    · have h0 : (flat p).length = 0 := by rw [← hl.count_eq]; simpa using h
+      have : flat p = [] := List.eq_nil_of_length_eq_zero h0
+      simp [h, hs, this]
+    · simp only [h, Bool.false_eq_true, if_false, Shard.ok, hl.append, and_true]
+      unfold Shard.ok at hs
+      simp [hl.count_eq, hl.append, List.length_append] at hs ⊢
+      omega
+  have sp := sendLoop_spec o flat hl c now ((s.add o p).cnt + 1) (s.add o p) [] hadd.1 (Nat.lt_succ_self _)
+  simp only [Shard.process]
+  have hperm := sp.2.1
+  simp only [flatEmits, List.flatMap_nil, List.nil_append] at hperm
+  rw [hadd.2.1] at hperm
+  by_cases he : (sendLoop o c now ((s.add o p).cnt + 1) (s.add o p) []).2.isEmpty = true
+  · simp only [he, if_true]
+    refine ⟨⟨sp.1, sp.2.2.2.1⟩, hperm, fun hm => sp.2.2.1 hm (by simp), by rw [sp.2.2.2.2.1, hadd.2.2], ?_⟩
+    intro e hmem
+    have := sp.2.2.2.2.2 (by simp) e hmem
+    rw [hadd.2.2] at this; exact this
+  · simp only [he, Bool.false_eq_true, if_false]
+    refine ⟨⟨sp.1, sp.2.2.2.1⟩, hperm, fun hm => sp.2.2.1 hm (by simp), by rw [sp.2.2.2.2.1, hadd.2.2], ?_⟩
+    intro e hmem
+    have := sp.2.2.2.2.2 (by simp) e hmem
+    rw [hadd.2.2] at this; exact this
+
+/-- the pending items fit one batch when no send is due (validated configuration) -/
+theorem inv_fits {P : Type} (o : BatchOps P) (c : Cfg) (hv : c.valid) (s : Shard P) (hi : s.inv o c) :
+    c.max = 0 ∨ s.cnt ≤ c.max := by
+  have hd := hi.2
+  simp only [due, Bool.and_eq_false_iff, decide_eq_false_iff_not, Bool.or_eq_false_iff, Bool.not_eq_false'] at hd
+  rcases hv with h | h
+  · exact Or.inl h
+  · rcases hd with h1 | ⟨_, h2⟩
+    · right; omega
+    · right; omega
+
+theorem tick_spec {P β : Type} (o : BatchOps P) (flat : P → List β) (hl : BatchLaws o flat) (c : Cfg) (hv : c.valid)
+    (s : Shard P) (hi : s.inv o c) :
+    (s.tick o c).1.inv o c ∧ (s.tick o c).1.cnt = 0 ∧
+    (flatEmits flat (s.tick o c).2 ++ flat (s.tick o c).1.data).Perm (flat s.data) ∧
+    (c.max > 0 → ∀ e ∈ (s.tick o c).2, o.count e.p ≤ c.max) ∧
+    (s.tick o c).1.key = s.key ∧ (∀ e ∈ (s.tick o c).2, e.key = s.key ∧ e.t = s.deadline) := by
+  simp only [Shard.tick]
+  by_cases h : s.cnt > 0
+  · have sp := send_spec o flat hl c s.deadline s hi.1
+    have h0 := sp.2.2.2.2.1 (inv_fits o c hv s hi)
+    simp only [h, if_true]
+    refine ⟨⟨?_, ?_⟩, h0, ?_, ?_, sp.2.2.2.2.2.2.1, ?_⟩
+    · exact sp.1
+    · simp [due, h0]
+    · simpa [flatEmits] using sp.2.1
+    · intro hm e he; simp only [List.mem_singleton] at he; subst he; exact sp.2.2.1 hm
+    · intro e he; simp only [List.mem_singleton] at he; subst he; exact ⟨sp.2.2.2.2.2.1, sp.2.2.2.2.2.2.2⟩
+  · have h0 : s.cnt = 0 := by omega
+    simp only [h, if_false]
+    refine ⟨⟨hi.1, by simp [due, h0]⟩, h0, by simp [flatEmits], fun _ e he => by simp at he, by first | rfl | trivial, fun e he => by simp at he⟩
+
+theorem shutdown_spec {P β : Type} (o : BatchOps P) (flat : P → List β) (hl : BatchLaws o flat) (c : Cfg) (hv : c.valid)
+    (now : Nat) (s : Shard P) (hi : s.inv o c) :
+    (flatEmits flat (s.shutdown o c now).2).Perm (flat s.data) ∧
+    (c.max > 0 → ∀ e ∈ (s.shutdown o c now).2, o.count e.p ≤ c.max) ∧
+    (∀ e ∈ (s.shutdown o c now).2, e.key = s.key) := by
+  simp only [Shard.shutdown]
+  by_cases h : s.cnt > 0
+  · have sp := send_spec o flat hl c now s hi.1
+    have h0 := sp.2.2.2.2.1 (inv_fits o c hv s hi)
+    have hk : (s.send o c now).1.ok o := sp.1
+    have hnil : flat (s.send o c now).1.data = [] := by
+      apply List.eq_nil_of_length_eq_zero
+      rw [← hl.count_eq, ← hk, h0]
+    simp only [h, if_true]
+    refine ⟨?_, ?_, ?_⟩
+    · have := sp.2.1; rw [hnil] at this; simpa [flatEmits] using this
+    · intro hm e he; simp only [List.mem_singleton] at he; subst he; exact sp.2.2.1 hm
+    · intro e he; simp only [List.mem_singleton] at he; subst he; exact sp.2.2.2.2.2.1
+  · have h0 : s.cnt = 0 := by omega
+    have hnil : flat s.data = [] := by
+      apply List.eq_nil_of_length_eq_zero
+      rw [← hl.count_eq, ← hi.1, h0]
+    simp only [h, if_false]
+    exact ⟨by simp [flatEmits, hnil], fun _ e he => by simp at he, fun e he => by simp at he⟩
+
+/-- **size trigger**: after any arrival is processed, no shard holds `send_batch_size` items (with a timer), or any
+item at all (`timeout = 0` or `send_batch_size = 0`): a batch was emitted before the next arrival is looked at -/
+theorem C17_size_trigger {P β : Type} (o : BatchOps P) (flat : P → List β) (hl : BatchLaws o flat) (c : Cfg) (now : Nat)
+    (s : Shard P) (p : P) (hs : s.ok o) :
+    (hasTimer c = true → (s.process o c now p).1.cnt < max c.sbs 1) ∧ (hasTimer c = false → (s.process o c now p).1.cnt = 0) := by
+  have hd := (process_spec o flat hl c now s p hs).1.2
+  simp only [due, Bool.and_eq_false_iff, decide_eq_false_iff_not, Bool.or_eq_false_iff, Bool.not_eq_false'] at hd
+  constructor
+  · intro ht
+    rcases hd with h | ⟨_, h⟩ <;> omega
+  · intro ht
+    rcases hd with h | ⟨h, _⟩
+    · omega
+    · rw [ht] at h; cases h
+
+theorem run_spec {P β : Type} (o : BatchOps P) (flat : P → List β) (hl : BatchLaws o flat) (c : Cfg) (hv : c.valid) :
+    ∀ (ls : List (Label P)) (s : Shard P), s.inv o c →
+      (Shard.run o c s ls).1.inv o c ∧
+      (flatEmits flat (Shard.run o c s ls).2 ++ flat (Shard.run o c s ls).1.data).Perm (flat s.data ++ arrivedFlat flat ls) ∧
+      (c.max > 0 → ∀ e ∈ (Shard.run o c s ls).2, o.count e.p ≤ c.max) ∧
+      (Shard.run o c s ls).1.key = s.key ∧ (∀ e ∈ (Shard.run o c s ls).2, e.key = s.key) := by
+  intro ls
+  induction ls with
+  | nil => intro s hi; simp [Shard.run, flatEmits, arrivedFlat, hi]
+  | cons l ls ih =>
+    intro s hi
+    simp only [Shard.run]
+    have step : (s.step o c l).1.inv o c ∧
+        (flatEmits flat (s.step o c l).2 ++ flat (s.step o c l).1.data).Perm (flat s.data ++ arrivedFlat flat [l]) ∧
+        (c.max > 0 → ∀ e ∈ (s.step o c l).2, o.count e.p ≤ c.max) ∧
+        (s.step o c l).1.key = s.key ∧ (∀ e ∈ (s.step o c l).2, e.key = s.key) := by
+      cases l with
+      | arrive now p =>
+        have := process_spec o flat hl c now s p hi.1
+        exact ⟨this.1, by simpa [arrivedFlat, Shard.step] using this.2.1, this.2.2.1, this.2.2.2.1, fun e he => (this.2.2.2.2 e he).1⟩
+      | tick =>
+        have := tick_spec o flat hl c hv s hi
+        exact ⟨this.1, by simpa [arrivedFlat, Shard.step] using this.2.2.1, this.2.2.2.1, this.2.2.2.2.1, fun e he => (this.2.2.2.2.2 e he).1⟩
+    have r := ih (s.step o c l).1 step.1
+    refine ⟨r.1, ?_, ?_, by rw [r.2.2.2.1, step.2.2.2.1], ?_⟩
+    · have h1 := r.2.1
+      have h2 := step.2.1
+      have e : arrivedFlat flat (l :: ls) = arrivedFlat flat [l] ++ arrivedFlat flat ls := by
+        cases l <;> simp [arrivedFlat]
+      rw [e]
+      simp only [flatEmits, List.flatMap_append, List.append_assoc] at h1 h2 ⊢
+      refine (List.Perm.append_left _ h1).trans ?_
+      rw [← List.append_assoc, ← List.append_assoc]
+      exact List.Perm.append_right _ h2
+    · intro hm e he
+      rcases List.mem_append.mp he with h | h
+      · exact step.2.2.1 hm e h
+      · exact r.2.2.1 hm e h
+    · intro e he
+      rcases List.mem_append.mp he with h | h
+      · exact step.2.2.2.2 e h
+      · rw [← step.2.2.2.1]; exact r.2.2.2.2 e h
+
+/-- **exactly once**: for every sequence of arrivals and timer firings and every moment of shutdown, what a shard
+emitted by the time shutdown returns is exactly (as a multiset, with full context) what it accepted — nothing lost,
+duplicated or invented — for every validated configuration (downstream accepting) -/
+theorem C17_exactly_once {P β : Type} (o : BatchOps P) (flat : P → List β) (hl : BatchLaws o flat) (c : Cfg) (hv : c.valid)
+    (key : Key) (t0 tEnd : Nat) (ls : List (Label P)) :
+    let s0 : Shard P := { key := key, data := o.empty, cnt := 0, deadline := t0 }
+    let r := Shard.run o c s0 ls
+    (flatEmits flat (r.2 ++ (r.1.shutdown o c tEnd).2)).Perm (arrivedFlat flat ls) := by
+  intro s0 r
+  have hi0 : s0.inv o c := ⟨by simp [s0, Shard.ok, hl.count_eq, hl.empty], by simp [s0, due]⟩
+  have hr := run_spec o flat hl c hv ls s0 hi0
+  have hs := shutdown_spec o flat hl c hv tEnd r.1 hr.1
+  have h1 := hr.2.1
+  simp only [s0, hl.empty, List.nil_append] at h1
+  simp only [flatEmits, List.flatMap_append] at h1 hs ⊢
+  exact (List.Perm.append_left _ hs.1).trans h1
+
+/-- **bound**: with `send_batch_max_size > 0` no emitted batch has more items, over all label sequences incl. shutdown -/
+theorem C17_bound {P β : Type} (o : BatchOps P) (flat : P → List β) (hl : BatchLaws o flat) (c : Cfg) (hv : c.valid)
+    (hm : c.max > 0) (key : Key) (t0 tEnd : Nat) (ls : List (Label P)) :
+    let s0 : Shard P := { key := key, data := o.empty, cnt := 0, deadline := t0 }
+    let r := Shard.run o c s0 ls
+    ∀ e ∈ r.2 ++ (r.1.shutdown o c tEnd).2, o.count e.p ≤ c.max := by
+  intro s0 r e he
+  have hi0 : s0.inv o c := ⟨by simp [s0, Shard.ok, hl.count_eq, hl.empty], by simp [s0, due]⟩
+  have hr := run_spec o flat hl c hv ls s0 hi0
+  have hs := shutdown_spec o flat hl c hv tEnd r.1 hr.1
+  rcases List.mem_append.mp he with h | h
+  · exact hr.2.2.1 hm e h
+  · exact hs.2.1 hm e h
+
+/-- **metadata isolation** (shard level): every batch a shard emits carries the shard's own metadata values, which
+never change; `Proc.arrive` only ever hands a payload to the shard whose values equal the arrival's
+(`C17_arrive_routes`), so items with different values never share a batch -/
+theorem C17_metadata_isolation {P β : Type} (o : BatchOps P) (flat : P → List β) (hl : BatchLaws o flat) (c : Cfg) (hv : c.valid)
+    (key : Key) (t0 tEnd : Nat) (ls : List (Label P)) :
+    let s0 : Shard P := { key := key, data := o.empty, cnt := 0, deadline := t0 }
+    let r := Shard.run o c s0 ls
+    ∀ e ∈ r.2 ++ (r.1.shutdown o c tEnd).2, e.key = key := by
+  intro s0 r e he
+  have hi0 : s0.inv o c := ⟨by simp [s0, Shard.ok, hl.count_eq, hl.empty], by simp [s0, due]⟩
+  have hr := run_spec o flat hl c hv ls s0 hi0
+  have hs := shutdown_spec o flat hl c hv tEnd r.1 hr.1
+  rcases List.mem_append.mp he with h | h
+  · exact hr.2.2.2.2 e h
+  · rw [hs.2.2 e h, hr.2.2.2.1]
+
+/-- the sharder hands the payload to a shard with exactly the arrival's metadata values -/
+theorem C17_arrive_routes {P : Type} (o : BatchOps P) (c : Cfg) (pr : Proc P) (key : Key) (p : P)
+    (pr' : Proc P) (es : List (Emit P)) (h : pr.arrive o c key p = some (pr', es))
+    {β : Type} (flat : P → List β) (hl : BatchLaws o flat) (hok : ∀ s ∈ pr.shards, s.ok o) :
+    ∀ e ∈ es, e.key = key := by
+  simp only [Proc.arrive] at h
+  split at h
+  · next s hf =>
+    injection h with h
+    have hk : s.key = key := by simpa using List.find?_some hf
+    have hm : s ∈ pr.shards := List.mem_of_find?_eq_some hf
+    have := (process_spec o flat hl c pr.now s p (hok s hm)).2.2.2.2
+    intro e he
+    have h2 : es = (s.process o c pr.now p).2 := by
+      have := congrArg Prod.snd h; simpa using this.symm
+    rw [h2] at he
+    rw [(this e he).1, hk]
+  · split at h
+    · cases h
+    · injection h with h
+      intro e he
+      have h2 : es = (Shard.process o c pr.now { key := key, data := o.empty, cnt := 0, deadline := pr.now + c.timeout } p).2 := by
+        have := congrArg Prod.snd h; simpa using this.symm
+      rw [h2] at he
+      have := (process_spec o flat hl c pr.now { key := key, data := o.empty, cnt := 0, deadline := pr.now + c.timeout } p
+        (by simp [Shard.ok, hl.count_eq, hl.empty])).2.2.2.2
+      exact (this e he).1
+
+/-- **cardinality**: an arrival is refused exactly when its group is new and the number of groups has reached the
+limit; a refusal changes nothing (`arrive` returns no new state), so existing groups are unaffected -/
+theorem C17_cardinality {P : Type} (o : BatchOps P) (c : Cfg) (pr : Proc P) (key : Key) (p : P) :
+    pr.arrive o c key p = none ↔
+      (pr.shards.find? (fun s => s.key = key) = none ∧ c.limit ≠ 0 ∧ pr.shards.length ≥ c.limit) := by
+  simp only [Proc.arrive]
+  split
+  · next s hf => simp [hf]
+  · next hf =>
+    by_cases h : (c.limit != 0 && decide (pr.shards.length ≥ c.limit)) = true
+    · simp only [h, if_true, true_iff]
+      simp only [Bool.and_eq_true, bne_iff_ne, decide_eq_true_eq] at h
+      exact ⟨hf, h.1, h.2⟩
+    · simp only [h, Bool.false_eq_true, if_false]
+      simp only [Bool.and_eq_true, bne_iff_ne, decide_eq_true_eq] at h
+      constructor
+      · intro h'; cases h'
+      · intro h'; exact absurd ⟨h'.2.1, h'.2.2⟩ h
+
+/-- **timeout** (partial): when the timer fires, everything pending leaves in that one batch, stamped with the
+deadline, and after any send or firing the next deadline is exactly `timeout` later.  Not carried by the theorem:
+that the deadline is never later than the oldest pending item's arrival + timeout also across a size-triggered
+partial send (needs the FIFO order of `split`: monitored by the `timeout` oracle on every run), and real timer
+latency (virtual time only). -/
+theorem C17_timeout_partial {P β : Type} (o : BatchOps P) (flat : P → List β) (hl : BatchLaws o flat) (c : Cfg) (hv : c.valid)
+    (s : Shard P) (hi : s.inv o c) :
+    (s.tick o c).1.cnt = 0 ∧ (∀ e ∈ (s.tick o c).2, e.t = s.deadline) ∧ (s.tick o c).1.deadline = s.deadline + c.timeout := by
+  have := tick_spec o flat hl c hv s hi
+  refine ⟨this.2.1, fun e he => (this.2.2.2.2.2 e he).2, ?_⟩
+  simp only [Shard.tick]
+  split <;> rfl
+
+/-- non-vacuity: 5 records, send_batch_size 2, max 2: two batches at once, one record waits for the timer -/
+example :
+    let c : Cfg := { sbs := 2, max := 2, timeout := 100 }
+    let s0 : Shard (List Res) := { key := [], data := [], cnt := 0, deadline := 100 }
+    let p : List Res := [⟨⟨1, 0, 0⟩, [⟨⟨2, 0, 0, 0, 0⟩, [⟨10, 0, 1⟩, ⟨11, 0, 1⟩, ⟨12, 0, 1⟩, ⟨13, 0, 1⟩, ⟨14, 0, 1⟩]⟩]⟩]
+    let r := Shard.run logsBatch c s0 [.arrive 7 p, .tick]
+    r.2.map (fun e => (e.t, (flatten e.p).map (·.2.2.id))) = [(7, [10, 11]), (7, [12, 13]), (107, [14])] := by decide
+
 end OtelVerif.C17
